@@ -38,18 +38,20 @@ def run(p, report, tier):
     pred = pr.methods.get("predict")
     if pred is None:
         raise AnalysisError("ProbabilisticRegressor.predict vanished")
-    # ---- R15.1
-    calls = [n for n in ast.walk(pred.node) if isinstance(n, ast.Call) and c01.callname(n) == "predict_target_distribution"]
-    binds = [n for n in ast.walk(pred.node) if isinstance(n, ast.Assign) and n.value in calls and isinstance(n.targets[0], ast.Name)]
+    # ---- R15.1 (on the normal form: `mu = rv.mean()` is substituted back)
+    from ..astutil import inline_temporaries as _inl
+    pred_n = _inl(pred.node)
+    calls = [n for n in ast.walk(pred_n) if isinstance(n, ast.Call) and c01.callname(n) == "predict_target_distribution"]
+    binds = [n for n in ast.walk(pred_n) if isinstance(n, ast.Assign) and n.value in calls and isinstance(n.targets[0], ast.Name)]
     ok = len(calls) == 1 and len(binds) == 1
     rv = binds[0].targets[0].id if binds else None
-    rebinds = [n for n in ast.walk(pred.node) if isinstance(n, ast.Name) and n.id == rv and isinstance(n.ctx, ast.Store)]
+    rebinds = [n for n in ast.walk(pred_n) if isinstance(n, ast.Name) and n.id == rv and isinstance(n.ctx, ast.Store)]
     ok = ok and len(rebinds) == 1
     report.add("R15.1", pred.qual, "one distribution object", f"{pred.file}:{pred.node.lineno}", ok,
                detail=f"{len(calls)} predict_target_distribution call(s), bound to `{rv}`")
     # elements: every tuple literal assigned/added to the result contains only rv.mean()/std()/entropy()
     elems = []
-    for n in ast.walk(pred.node):
+    for n in ast.walk(pred_n):
         if isinstance(n, ast.Tuple) and isinstance(n.ctx, ast.Load) and n.elts and all(isinstance(e, ast.Call) for e in n.elts):
             elems += n.elts
     good = bool(elems) and all(isinstance(e.func, ast.Attribute) and isinstance(e.func.value, ast.Name)
@@ -58,7 +60,7 @@ def run(p, report, tier):
     order = [e.func.attr for e in elems if isinstance(e.func, ast.Attribute)]
     # mean first; std guarded by return_std, entropy by return_entropy
     guards_ok = True
-    for n in ast.walk(pred.node):
+    for n in ast.walk(pred_n):
         if isinstance(n, ast.If):
             body_attrs = [e.func.attr for e in ast.walk(n) if isinstance(e, ast.Call) and isinstance(e.func, ast.Attribute)
                           and isinstance(e.func.value, ast.Name) and e.func.value.id == rv]
@@ -143,7 +145,8 @@ def run(p, report, tier):
                                if not _in_fstring(h, n))
                 rets = [n for st in h.body for n in ast.walk(st) if isinstance(n, ast.Return)]
                 all_mean = bool(rets) and all("_label_mean" in ast.unparse(r.value) or
-                                              (isinstance(r.value, ast.Name) and _derives(h, r.value.id, "_label_mean"))
+                                              any(isinstance(x, ast.Name) and _derives(h, x.id, "_label_mean")
+                                                  for x in ast.walk(r.value))
                                               for r in rets)
                 fulls = [c for st in h.body for c in ast.walk(st) if isinstance(c, ast.Call) and c01.callname(c) in ("full", "full_like")]
                 bad_dtype = [c for c in fulls if any(k.arg == "dtype" and ast.unparse(k.value) not in ("float", "np.float64", "numpy.float64")
